@@ -12,7 +12,8 @@ def run(ctx):
         lines, tr = seqlib.run_seq(ctx, args)
         if lines is not None:
             seqlib.analyse(ctx, lines, tr, ok_drv, "C19",
-                           relevant_ops={"fsinfo", "pathconf", "create", "mkdir", "symlink", "rename", "write", "setattr"})
+                           relevant_ops={"fsinfo", "pathconf", "create", "mkdir", "symlink", "rename", "write", "setattr",
+                                         "lookup", "remove", "rmdir", "read"})
     vlib.finish(
         ctx, "proof",
         "theorems over the REGENERATED announced values (obtained by running FSINFO/PATHCONF of the current code): name_max, maxfilesize and wtmax are "
